@@ -6,6 +6,8 @@ import (
 	"sort"
 	"strconv"
 	"strings"
+	"sync"
+	"time"
 
 	"github.com/IBM/sarama"
 
@@ -37,6 +39,11 @@ func genCluster(g *gen) {
 	for i := 0; i < n; i++ {
 		g.newCase()
 		g.emit("K init")
+		// every third case drives the module's REAL mainLoop: ticks on the three ticker channels instead of direct calls
+		loopMode := i%3 == 2
+		if loopMode {
+			g.emit("K loop")
+		}
 		// the cluster's true layout evolves over the cycles
 		layout := map[string][]clPart{}
 		order := []string{}
@@ -136,9 +143,56 @@ func genCluster(g *gen) {
 			}
 			// the Kafka error code partitions in `pe` are answered with (any non-zero code is an error)
 			pec := g.pick(6, 6, 3, 5, 9, 7, 1, 56, 78, 74, -1)
-			g.emit("K cycle tick=%d meta=%s terr=%d perr=%s lq=%s bf=%s pe=%s off=%d pec=%d ek=%d", tick, meta, terr, perr, lq, bf, pe, 1+c, pec, g.intn(5))
+			if !loopMode {
+				g.emit("K cycle tick=%d meta=%s terr=%d perr=%s lq=%s bf=%s pe=%s off=%d pec=%d ek=%d", tick, meta, terr, perr, lq, bf, pe, 1+c, pec, g.intn(5))
+				continue
+			}
+			if tick == 1 {
+				g.emit("K tick meta")
+				if g.chance(1, 4) {
+					g.emit("K tick meta")
+				}
+			}
+			if g.chance(1, 2) {
+				g.emit("K tick reap %s", genReap(g))
+			}
+			g.emit("K tick offset meta=%s terr=%d perr=%s lq=%s bf=%s pe=%s off=%d pec=%d ek=%d", meta, terr, perr, lq, bf, pe, 1+c, pec, g.intn(5))
+			if g.chance(1, 3) {
+				g.emit("K tick reap %s", genReap(g))
+			}
+		}
+		if loopMode {
+			g.emit("K stop")
 		}
 	}
+}
+
+var clGroups = []string{"g0", "g1", "g2", "g3", "burrow-c0", "burrow-c1", "G0"}
+
+// genReap scripts one sweep of the groups reaper: kg = what Kafka's ListConsumerGroups answers ("!" = error, "-" = no
+// groups), sg = what storage answers to StorageFetchConsumers ("!" = a nil reply, "-" = no groups; order matters)
+func genReap(g *gen) string {
+	list := func() string {
+		var xs []string
+		for _, x := range clGroups {
+			if g.chance(1, 2) {
+				xs = append(xs, x)
+			}
+		}
+		g.rnd.Shuffle(len(xs), func(i, j int) { xs[i], xs[j] = xs[j], xs[i] })
+		if len(xs) == 0 {
+			return "-"
+		}
+		return strings.Join(xs, ",")
+	}
+	kg, sg := list(), list()
+	if g.chance(1, 6) {
+		kg = "!"
+	}
+	if g.chance(1, 8) {
+		sg = "!"
+	}
+	return fmt.Sprintf("kg=%s sg=%s", kg, sg)
 }
 
 type clEnv struct {
@@ -320,9 +374,32 @@ func runCluster(r *runner) {
 		}
 		return out, true
 	}
+	// loop mode: the module's real mainLoop runs on three ticker channels the harness owns
+	var offC, metaC, reapC chan time.Time
+	var lp *clPump
+	stopLoop := func() {
+		if lp != nil {
+			_ = cl.Stop()
+			lp.stop()
+			lp = nil
+		}
+	}
+	fake.GroupsFn = func() (map[string]string, bool) {
+		if lp == nil {
+			return nil, false
+		}
+		return lp.nextGroups()
+	}
+	// syncLoop returns once everything the loop was given before has been handled: a reaper tick whose listing
+	// fails (no effect: Props.C09.reaper_failed_listing_deletes_nothing) is only received when the loop is idle again
+	syncLoop := func() {
+		lp.pushGroups(nil, false)
+		reapC <- time.Time{}
+	}
 	for {
 		line, ok := r.next()
 		if !ok {
+			stopLoop()
 			return
 		}
 		if strings.HasPrefix(line, "#") {
@@ -334,6 +411,7 @@ func runCluster(r *runner) {
 		r.resolve("%s", line)
 		switch f[1] {
 		case "init":
+			stopLoop()
 			app = &protocol.ApplicationContext{StorageChannel: make(chan *protocol.StorageRequest, 4096)}
 			cl = verifhook.NewKafkaCluster(app, "c0")
 			partCache, partCacheWant = map[string][]int32{}, map[string][]int32{}
@@ -387,8 +465,217 @@ func runCluster(r *runner) {
 				return fmt.Sprintf("refresh=%d deletes=%s asked=%s updates=%s fm=%d", fake.RefreshCalls, j(deletes, ","), j(asked, ";"), j(updates, ","), fm)
 			})
 			r.reply("%s", res)
+		case "loop":
+			if cl == nil || lp != nil {
+				r.reply("bad-op")
+				break
+			}
+			offC, metaC, reapC = make(chan time.Time), make(chan time.Time), make(chan time.Time)
+			lp = newClPump(app.StorageChannel)
+			env = parseClEnv(map[string]string{"meta": "-", "lq": "-", "bf": "-", "pe": "-"})
+			cl.StartMainLoop(fake, offC, metaC, reapC)
+			r.reply("ok")
+		case "stop":
+			if lp == nil {
+				r.reply("bad-op")
+				break
+			}
+			res := guard(func() string {
+				stopLoop()
+				return "stopped"
+			})
+			r.reply("%s", res)
+		case "tick":
+			if lp == nil || len(f) < 3 {
+				r.reply("bad-op")
+				break
+			}
+			kv := parseKV(f[3:])
+			res := guard(func() string {
+				switch f[2] {
+				case "meta":
+					metaC <- time.Time{}
+					syncLoop()
+					if extra := lp.take(); len(extra) > 0 {
+						return fmt.Sprintf("ok +%d storage requests", len(extra))
+					}
+					return "ok"
+				case "reap":
+					lp.setStorageGroups(kv["sg"])
+					if kv["kg"] == "!" {
+						lp.pushGroups(nil, false)
+					} else {
+						m := map[string]string{}
+						if kv["kg"] != "-" {
+							for _, x := range strings.Split(kv["kg"], ",") {
+								m[x] = "consumer"
+							}
+						}
+						lp.pushGroups(m, true)
+					}
+					reapC <- time.Time{}
+					syncLoop()
+					asked := 0
+					var del []string
+					for _, q := range lp.take() {
+						switch q.RequestType {
+						case protocol.StorageFetchConsumers:
+							asked++
+							if q.Cluster != "c0" {
+								del = append(del, "?cluster="+q.Cluster)
+							}
+						case protocol.StorageSetDeleteGroup:
+							if q.Cluster != "c0" {
+								del = append(del, "?cluster="+q.Cluster)
+							}
+							del = append(del, q.Group)
+						default:
+							del = append(del, fmt.Sprintf("?%d", int(q.RequestType)))
+						}
+					}
+					d := "-"
+					if len(del) > 0 {
+						d = strings.Join(del, ",")
+					}
+					return fmt.Sprintf("asked=%d del=%s", asked, d)
+				case "offset":
+					env = parseClEnv(kv)
+					fake.Reset()
+					offC <- time.Time{}
+					syncLoop()
+					return renderCycle(fake, cl, lp.take())
+				}
+				return "bad-op"
+			})
+			r.reply("%s", res)
 		default:
 			r.reply("bad-op")
 		}
+	}
+}
+
+// renderCycle prints what one refresh cycle did: the storage requests it sent and the brokers it asked.
+func renderCycle(fake *verifhook.FakeKafka, cl *verifhook.KafkaCluster, reqs []*protocol.StorageRequest) string {
+	var deletes, updates, asked []string
+	for _, q := range reqs {
+		switch q.RequestType {
+		case protocol.StorageSetDeleteTopic:
+			deletes = append(deletes, q.Topic)
+		case protocol.StorageSetBrokerOffset:
+			updates = append(updates, fmt.Sprintf("%s.%d.%d.%d", q.Topic, q.Partition, q.Offset, q.TopicPartitionCount))
+		default:
+			updates = append(updates, fmt.Sprintf("?%d", int(q.RequestType)))
+		}
+	}
+	sort.Strings(deletes)
+	sort.Strings(updates)
+	var bs []int
+	for b := range fake.Asked {
+		bs = append(bs, int(b))
+	}
+	sort.Ints(bs)
+	for _, b := range bs {
+		var xs []string
+		for _, tp := range fake.Asked[int32(b)] {
+			xs = append(xs, fmt.Sprintf("%s.%d", tp.Topic, tp.Partition))
+		}
+		sort.Strings(xs)
+		asked = append(asked, fmt.Sprintf("%d:%s", b, strings.Join(xs, "+")))
+	}
+	j := func(xs []string, sep string) string {
+		if len(xs) == 0 {
+			return "-"
+		}
+		return strings.Join(xs, sep)
+	}
+	fm := 0
+	if cl.FetchMetadata() {
+		fm = 1
+	}
+	return fmt.Sprintf("refresh=%d deletes=%s asked=%s updates=%s fm=%d", fake.RefreshCalls, j(deletes, ","), j(asked, ";"), j(updates, ","), fm)
+}
+
+// clPump stands in for storage while the real main loop runs: it takes every request off the storage channel, answers
+// StorageFetchConsumers with the scripted listing, and keeps the requests for the op to read.  Receives happen only
+// under the mutex, so "channel empty, seen under the mutex" means everything sent so far has been kept.
+type clPump struct {
+	mu     sync.Mutex
+	ch     chan *protocol.StorageRequest
+	kept   []*protocol.StorageRequest
+	sg     string
+	groups []clGroupsAnswer
+	quit   chan struct{}
+	done   chan struct{}
+}
+type clGroupsAnswer struct {
+	m  map[string]string
+	ok bool
+}
+
+func newClPump(ch chan *protocol.StorageRequest) *clPump {
+	p := &clPump{ch: ch, sg: "!", quit: make(chan struct{}), done: make(chan struct{})}
+	go func() {
+		defer close(p.done)
+		for {
+			select {
+			case <-p.quit:
+				return
+			default:
+			}
+			p.mu.Lock()
+			select {
+			case q := <-p.ch:
+				p.kept = append(p.kept, q)
+				if q.RequestType == protocol.StorageFetchConsumers && q.Reply != nil {
+					switch p.sg {
+					case "!":
+						close(q.Reply)
+					case "-":
+						q.Reply <- []string{}
+					default:
+						q.Reply <- strings.Split(p.sg, ",")
+					}
+				}
+				p.mu.Unlock()
+			default:
+				p.mu.Unlock()
+				time.Sleep(20 * time.Microsecond)
+			}
+		}
+	}()
+	return p
+}
+func (p *clPump) stop() { close(p.quit); <-p.done }
+func (p *clPump) setStorageGroups(sg string) {
+	p.mu.Lock()
+	p.sg = sg
+	p.mu.Unlock()
+}
+func (p *clPump) pushGroups(m map[string]string, ok bool) {
+	p.mu.Lock()
+	p.groups = append(p.groups, clGroupsAnswer{m, ok})
+	p.mu.Unlock()
+}
+func (p *clPump) nextGroups() (map[string]string, bool) {
+	p.mu.Lock()
+	defer p.mu.Unlock()
+	if len(p.groups) == 0 {
+		return nil, false
+	}
+	a := p.groups[0]
+	p.groups = p.groups[1:]
+	return a.m, a.ok
+}
+func (p *clPump) take() []*protocol.StorageRequest {
+	for {
+		p.mu.Lock()
+		if len(p.ch) == 0 {
+			out := p.kept
+			p.kept = nil
+			p.mu.Unlock()
+			return out
+		}
+		p.mu.Unlock()
+		time.Sleep(20 * time.Microsecond)
 	}
 }
